@@ -129,7 +129,7 @@ pub fn run_case(rng: &mut Rng, len_lo: usize, len_hi: usize) -> CaseOut {
                 let id = eg.add(n);
                 handles.push(id);
             } else if roll < 80 {
-                if eg.total_number_of_nodes() < 250 && !rules.is_empty() {
+                if eg.total_number_of_nodes() < 90 && !rules.is_empty() {
                     let k = rng.range(1, rules.len());
                     let names: Vec<String> = rules[..k].iter().map(|x| x.0.clone()).collect();
                     desc = format!("rewrite {names:?}");
